@@ -223,6 +223,66 @@ Proof.
 Qed.
 
 (* ================================================================== *)
+(* UTF-8 decoding distributes over a complete prefix                  *)
+Lemma utf8_dec_app : forall a st a' b, utf8_dec st a = Ok a' ->
+  utf8_dec st (a ++ b) = (b' <- utf8_dec None b ;; Ok (a' ++ b')).
+Proof.
+  induction a as [|x a IH]; intros st a' b H.
+  - simpl in H. destruct st; [discriminate|]. inversion H; subst. simpl.
+    destruct (utf8_dec None b); reflexivity.
+  - cbn [app utf8_dec] in *. destruct st as [[[[n acc] lo] hi]|].
+    + destruct ((lo <=? x) && (x <=? hi)); [|discriminate].
+      destruct n as [|[|n']].
+      * destruct (utf8_dec None a) eqn:E; cbn [bind] in H; [|discriminate]. inversion H; subst.
+        rewrite (IH _ _ b E). destruct (utf8_dec None b); reflexivity.
+      * destruct (utf8_dec None a) eqn:E; cbn [bind] in H; [|discriminate]. inversion H; subst.
+        rewrite (IH _ _ b E). destruct (utf8_dec None b); reflexivity.
+      * apply IH; exact H.
+    + destruct ((0 <=? x) && (x <? 128)).
+      { destruct (utf8_dec None a) eqn:E; cbn [bind] in H; [|discriminate]. inversion H; subst.
+        rewrite (IH _ _ b E). destruct (utf8_dec None b); reflexivity. }
+      repeat match goal with
+             | H : (if ?c then _ else _) = Ok _ |- _ => destruct c; [apply IH; exact H|]
+             end.
+      discriminate.
+Qed.
+Lemma utf8_decode_app : forall a a' b, utf8_decode a = Ok a' ->
+  utf8_decode (a ++ b) = (b' <- utf8_decode b ;; Ok (a' ++ b')).
+Proof. intros. apply utf8_dec_app. exact H. Qed.
+
+(* ================================================================== *)
+(* text-mode line splitting on LF and CRLF lines                      *)
+Definition CR := 13.
+Lemma unl_plain_gen : forall c cur, ~ In NL c -> ~ In CR c ->
+  unl (c ++ [NL]) cur = [List.rev cur ++ c ++ [NL]].
+Proof.
+  induction c as [|x c IH]; intros cur H1 H2.
+  - simpl. reflexivity.
+  - cbn [app unl].
+    destruct (x =? 10) eqn:E1. { apply Z.eqb_eq in E1. exfalso. apply H1. left. auto. }
+    destruct (x =? 13) eqn:E2. { apply Z.eqb_eq in E2. exfalso. apply H2. left. auto. }
+    rewrite IH; [| intro; apply H1; right; auto | intro; apply H2; right; auto].
+    simpl. rewrite <- app_assoc. reflexivity.
+Qed.
+Lemma unl_plain : forall c, ~ In NL c -> ~ In CR c -> unl (c ++ [NL]) [] = [c ++ [NL]].
+Proof. intros. rewrite unl_plain_gen by auto. reflexivity. Qed.
+Lemma unl_crlf_gen : forall d cur, ~ In NL d -> ~ In CR d ->
+  unl ((d ++ [CR]) ++ [NL]) cur = [List.rev cur ++ d ++ [NL]].
+Proof.
+  induction d as [|x d IH]; intros cur H1 H2.
+  - simpl. reflexivity.
+  - cbn [app unl].
+    destruct (x =? 10) eqn:E1. { apply Z.eqb_eq in E1. exfalso. apply H1. left. auto. }
+    destruct (x =? 13) eqn:E2. { apply Z.eqb_eq in E2. exfalso. apply H2. left. auto. }
+    rewrite IH; [| intro; apply H1; right; auto | intro; apply H2; right; auto].
+    simpl. rewrite <- app_assoc. reflexivity.
+Qed.
+Lemma unl_crlf : forall d, ~ In NL d -> ~ In CR d -> unl ((d ++ [CR]) ++ [NL]) [] = [d ++ [NL]].
+Proof. intros. rewrite unl_crlf_gen by auto. reflexivity. Qed.
+Lemma rstrip_crlf : forall d, rstrip ((d ++ [CR]) ++ [NL]) = rstrip (d ++ [NL]).
+Proof. intros. rewrite !rstrip_NL. unfold rstrip. apply rstrip_by_app_l. reflexivity. Qed.
+
+(* ================================================================== *)
 (* index-equivalent access                                            *)
 Section IndexProofs.
   Variable R : Type.
@@ -231,16 +291,22 @@ Section IndexProofs.
   (* both parsers start with line.rstrip() *)
   Hypothesis P_rstrip : forall ic l, P ic l = P ic (rstrip l).
 
-  (* a record line together with what it parses to *)
-  Definition T := (seq * R * seq)%type.
-  Definition t_line (t : T) := fst (fst t).
+  (* a record line (bytes), its text without the terminator, and what it parses to *)
+  Definition T := (seq * seq * R * seq)%type.
+  Definition t_line (t : T) := fst (fst (fst t)).      (* the bytes of the line, terminator included *)
+  Definition t_c (t : T) := snd (fst (fst t)).         (* its decoded text without the final newline *)
   Definition t_rec (t : T) := snd (fst t).
   Definition t_key (t : T) := snd t.
+  Definition t_text (t : T) := t_c t ++ [NL].
   Definition lines_of (ts : list T) := map t_line ts.
+  Definition texts_of (ts : list T) := map t_text ts.
   Definition good (ic : bool) (t : T) : Prop :=
-    exists c, t_line t = c ++ [NL] /\ ~ In NL c /\ rstrip c <> [] /\
-              starts_with_chr HASH (t_line t) = false /\
-              P ic (t_line t) = Ok (t_rec t) /\ key_of (t_rec t) = Ok (t_key t).
+    utf8_decode (t_line t) = Ok (t_text t) /\ ~ In NL (t_c t) /\ rstrip (t_c t) <> [] /\
+    starts_with_chr HASH (t_text t) = false /\
+    P ic (t_text t) = Ok (t_rec t) /\ key_of (t_rec t) = Ok (t_key t) /\
+    (* read in text mode the line is one line, equal to the binary one up to trailing white space
+       (true for LF and CRLF lines without a stray carriage return: unl_plain, unl_crlf, rstrip_crlf) *)
+    (exists u, unl (t_text t) [] = [u] /\ rstrip u = rstrip (t_text t) /\ starts_with_chr HASH u = false).
   Definition sel (k : seq) (ts : list T) := filter (fun t => eq_seq (t_key t) k) ts.
 
   Notation iter_ptr := (iter_ptr R P key_of).
@@ -249,32 +315,41 @@ Section IndexProofs.
   Notation scan := (scan R P).
   Notation with_key := (with_key R key_of).
 
+  Lemma decode_concat : forall ic ts, Forall (good ic) ts ->
+    utf8_decode (concat (lines_of ts)) = Ok (concat (texts_of ts)).
+  Proof.
+    induction ts as [|t ts IH]; intros Hg; [reflexivity|].
+    inversion Hg as [|? ? Ht Hg']; subst. destruct Ht as [Hd _].
+    cbn [lines_of texts_of map concat]. rewrite (utf8_decode_app _ _ _ Hd).
+    fold (lines_of ts). rewrite IH by auto. reflexivity.
+  Qed.
+
   Lemma rstrip_run_nonnil : forall ic ts, ts <> [] -> Forall (good ic) ts ->
-    rstrip (concat (lines_of ts)) <> [].
+    rstrip (concat (texts_of ts)) <> [].
   Proof.
     intros ic ts Hn Hg. destruct ts as [|t ts']; try congruence.
-    inversion Hg; subst. destruct H1 as [c [Hl [Hnl [Hr _]]]].
-    simpl. rewrite Hl. intro E. unfold rstrip in *.
+    inversion Hg; subst. destruct H1 as [_ [Hnl [Hr _]]].
+    cbn [texts_of map concat]. unfold t_text at 1. intro E. unfold rstrip in *.
     pose proof (proj1 (rstrip_by_nil_iff is_ws _) E) as E'. clear E. rename E' into E.
     apply Hr. apply rstrip_by_nil_iff. intros x Hx. apply E. apply in_or_app. left. apply in_or_app. left; auto.
   Qed.
 
   Lemma load_lines : forall ic ts, ts <> [] -> Forall (good ic) ts ->
-    map_res (P ic) (split_on NL (rstrip (concat (lines_of ts)))) = Ok (map t_rec ts).
+    map_res (P ic) (split_on NL (rstrip (concat (texts_of ts)))) = Ok (map t_rec ts).
   Proof.
     induction ts as [|t ts' IH]; intros Hn Hg; try congruence.
     inversion Hg as [|? ? Ht Hg']; subst.
-    destruct Ht as [c [Hl [Hnl [Hr [Hh [HP Hk]]]]]].
+    destruct Ht as [Hd [Hnl [Hr [Hh [HP [Hk _]]]]]]. unfold t_text in HP.
     destruct ts' as [|t' ts''].
-    - simpl. rewrite app_nil_r, Hl. rewrite rstrip_NL.
+    - cbn [texts_of map concat]. rewrite app_nil_r. unfold t_text. rewrite rstrip_NL.
       rewrite split_on_free. 2:{ intro Hin. apply Hnl. eapply In_rstrip_by; eauto. }
-      simpl. rewrite <- (rstrip_NL c), <- Hl, <- (P_rstrip ic), HP. reflexivity.
-    - assert (Hne : rstrip (concat (lines_of (t' :: ts''))) <> []) by (apply (rstrip_run_nonnil ic); auto; discriminate).
-      change (concat (lines_of (t :: t' :: ts''))) with (t_line t ++ concat (lines_of (t' :: ts''))).
+      simpl. rewrite <- (rstrip_NL (t_c t)), <- (P_rstrip ic), HP. reflexivity.
+    - assert (Hne : rstrip (concat (texts_of (t' :: ts''))) <> []) by (apply (rstrip_run_nonnil ic); auto; discriminate).
+      change (concat (texts_of (t :: t' :: ts''))) with (t_text t ++ concat (texts_of (t' :: ts''))).
       rewrite rstrip_app_r by exact Hne.
-      rewrite Hl. rewrite <- app_assoc. simpl app at 2. rewrite split_on_app by exact Hnl.
-      cbn [map_res]. rewrite P_rstrip, <- (rstrip_NL c), <- Hl, <- (P_rstrip ic), HP. cbn [bind].
-      change (t_line t' ++ concat (lines_of ts'')) with (concat (lines_of (t' :: ts''))).
+      unfold t_text at 1. rewrite <- app_assoc. simpl app at 2. rewrite split_on_app by exact Hnl.
+      cbn [map_res]. rewrite P_rstrip, <- (rstrip_NL (t_c t)), <- (P_rstrip ic), HP. cbn [bind].
+      match goal with |- context [rstrip ?x] => change x with (concat (texts_of (t' :: ts''))) end.
       rewrite IH; auto. discriminate.
   Qed.
 
@@ -282,7 +357,8 @@ Section IndexProofs.
     bytes = pre ++ concat (lines_of ts) ++ post -> s = zlen pre -> e = zlen pre + zlen (concat (lines_of ts)) ->
     ptr_load ic bytes (k, (s, e)) = Ok (map t_rec ts).
   Proof.
-    intros; subst. unfold Gvf.ptr_load. rewrite slice_mid. apply load_lines; auto.
+    intros; subst. unfold Gvf.ptr_load. rewrite slice_mid. rewrite (decode_concat ic) by auto. cbn [bind].
+    apply load_lines; auto.
   Qed.
 
   Lemma sel_app : forall k a b, sel k (a ++ b) = sel k a ++ sel k b.
@@ -319,8 +395,8 @@ Section IndexProofs.
         clear - E Hck. induction run; simpl; auto. inversion Hck; subst. rewrite E. simpl. auto.
     - inversion Hg as [|? ? Ht Hg']; subst.
       pose proof Ht as Ht0.
-      destruct Ht as [c [Hl [Hnl [Hr [Hh [HP Hk]]]]]].
-      cbn [lines_of map Gvf.iter_ptr]. fold (lines_of ts'). rewrite Hh. rewrite HP. cbn [bind]. rewrite Hk. cbn [bind].
+      destruct Ht as [Hd [Hnl [Hr [Hh [HP [Hk _]]]]]].
+      cbn [lines_of map Gvf.iter_ptr]. fold (lines_of ts'). rewrite Hd. cbn [bind]. rewrite Hh. rewrite HP. cbn [bind]. rewrite Hk. cbn [bind].
       destruct (eq_seq ck (t_key t)) eqn:E.
       + apply eq_seq_eq in E.
         destruct (IH Hg' pre (run ++ [t]) ck) as [ps [Hps Hall]].
@@ -364,7 +440,9 @@ Section IndexProofs.
   Qed.
 
   (* ---- one file: header comments followed by record lines ---- *)
-  Definition is_comment (l : seq) : Prop := starts_with_chr HASH l = true.
+  Definition is_comment (l : seq) : Prop :=
+    exists text u, utf8_decode l = Ok text /\ starts_with_chr HASH text = true /\
+                   unl text [] = [u] /\ starts_with_chr HASH u = true.
   Definition file_lines (cs : list seq) (ts : list T) := cs ++ lines_of ts.
 
   Lemma iter_comments : forall ic cs, Forall is_comment cs -> forall ls off,
@@ -372,7 +450,7 @@ Section IndexProofs.
   Proof.
     induction cs; intros Hc ls off; simpl.
     - f_equal. lia.
-    - inversion Hc; subst. unfold is_comment in H1. rewrite H1. rewrite IHcs by auto.
+    - inversion Hc; subst. destruct H1 as [text [u [Hd [Hh _]]]]. rewrite Hd. cbn [bind]. rewrite Hh. rewrite IHcs by auto.
       f_equal. rewrite zlen_app. lia.
   Qed.
 
@@ -380,21 +458,23 @@ Section IndexProofs.
     scan ic (cs ++ ls) = scan ic ls.
   Proof.
     induction cs; intros Hc ls; simpl; auto.
-    inversion Hc; subst. unfold is_comment in H1. rewrite H1. auto.
+    inversion Hc; subst. destruct H1 as [text [u [Hd [_ [Hu Hh]]]]]. rewrite Hd. cbn [bind]. rewrite Hu.
+    cbn [Gvf.scan_texts]. rewrite Hh. cbn [bind]. rewrite IHcs by auto. destruct (scan ic ls); reflexivity.
   Qed.
 
   Lemma scan_good : forall ic ts, Forall (good ic) ts -> scan ic (lines_of ts) = Ok (map t_rec ts).
   Proof.
     induction ts; intros Hg; simpl; auto.
-    inversion Hg; subst. destruct H1 as [c [Hl [Hnl [Hr [Hh [HP Hk]]]]]].
-    rewrite Hh, HP. cbn [bind]. rewrite IHts by auto. reflexivity.
+    inversion Hg; subst. destruct H1 as [Hd [Hnl [Hr [Hh [HP [Hk [u [Hu [Hru Hhu]]]]]]]]].
+    rewrite Hd. cbn [bind]. rewrite Hu. cbn [Gvf.scan_texts]. rewrite Hhu.
+    rewrite (P_rstrip ic u), Hru, <- (P_rstrip ic), HP. cbn [bind]. rewrite IHts by auto. reflexivity.
   Qed.
 
   Lemma with_key_good : forall ic k ts, Forall (good ic) ts ->
     with_key k (map t_rec ts) = Ok (map t_rec (sel k ts)).
   Proof.
     induction ts; intros Hg; simpl; auto.
-    inversion Hg; subst. destruct H1 as [c [Hl [Hnl [Hr [Hh [HP Hk]]]]]].
+    inversion Hg; subst. destruct H1 as [Hd [Hnl [Hr [Hh [HP [Hk _]]]]]].
     rewrite Hk. cbn [bind]. rewrite IHts by auto. cbn [bind].
     destruct (eq_seq (t_key a) k); reflexivity.
   Qed.
@@ -415,8 +495,8 @@ Section IndexProofs.
     - exists []. split; [reflexivity|]. split; [reflexivity|]. intros k. split; [reflexivity|].
       split; [reflexivity | reflexivity].
     - inversion Hg as [|? ? Ht Hg']; subst. pose proof Ht as Ht0.
-      destruct Ht as [c [Hl [Hnl [Hr [Hh [HP Hk]]]]]].
-      cbn [lines_of map Gvf.iter_ptr]. fold (lines_of ts'). rewrite Hh, HP. cbn [bind]. rewrite Hk. cbn [bind].
+      destruct Ht as [Hd [Hnl [Hr [Hh [HP [Hk _]]]]]].
+      cbn [lines_of map Gvf.iter_ptr]. fold (lines_of ts'). rewrite Hd. cbn [bind]. rewrite Hh, HP. cbn [bind]. rewrite Hk. cbn [bind].
       destruct (iter_run ic ts' Hg' (concat cs) [t] (t_key t)) as [ps [Hps Hall]].
       { discriminate. } { auto. } { auto. }
       assert (Hz : zlen (concat (lines_of [t])) = zlen (t_line t)) by (simpl; rewrite app_nil_r; auto).
@@ -595,11 +675,43 @@ Proof.
   destruct (eq_seq k' k) eqn:E; auto. apply eq_seq_eq in E; subst; auto.
 Qed.
 
+(* ---- the writer's and the reader's key tests agree on every key ---- *)
+Lemma eval_kflat : forall p k, eval_kpred (kflat p) k = eval_kpred p k.
+Proof.
+  unfold eval_kpred. induction p as [|a p IH]; intros k; [reflexivity|].
+  destruct a; cbn [kflat existsb]; rewrite <- ?IH; auto.
+  rewrite existsb_app. f_equal. cbn [eval_katom].
+  induction l; simpl; auto. rewrite IHl. rewrite (eq_seq_sym k a). reflexivity.
+Qed.
+Lemma katom_eqb_eval : forall a b k, katom_eqb a b = true -> eval_katom k a = eval_katom k b.
+Proof.
+  intros a b k H. destruct a, b; simpl in H; try discriminate; apply eq_seq_eq in H; subst; reflexivity.
+Qed.
+Lemma kpred_subset : forall p q k, forallb (fun a => kmem a q) p = true ->
+  eval_kpred p k = true -> eval_kpred q k = true.
+Proof.
+  unfold eval_kpred. intros p q k H E. apply existsb_exists in E as [a [Ha Ea]].
+  rewrite forallb_forall in H. specialize (H a Ha). unfold kmem in H.
+  apply existsb_exists in H as [b [Hb Eb]]. apply existsb_exists. exists b. split; auto.
+  rewrite <- (katom_eqb_eval a b k Eb). exact Ea.
+Qed.
+Lemma kpred_equiv_sound : forall w r, kpred_equiv w r = true -> forall k, eval_kpred w k = eval_kpred r k.
+Proof.
+  intros w r H k. unfold kpred_equiv in H.
+  apply andb_true_iff in H as [H H2]. apply andb_true_iff in H as [_ H1].
+  rewrite <- (eval_kflat w), <- (eval_kflat r).
+  destruct (eval_kpred (kflat w) k) eqn:E1.
+  - symmetry. eapply kpred_subset; eauto.
+  - destruct (eval_kpred (kflat r) k) eqn:E2; auto.
+    rewrite (kpred_subset _ _ k H2 E2) in E1. discriminate.
+Qed.
+
 Section VarProofs.
   Variable C : cfg.
+  Hypothesis Hpred : forall k, eval_kpred (w_shift C) k = eval_kpred (r_shift C) k.
 
   Definition norm_val (k : seq) (v : aval) : aval :=
-    if mem_seq k (pos_keys C)
+    if eval_kpred (w_shift C) k
     then match aval_int v with Ok z => AStr (print_int z) | Err _ => v end
     else AStr (aval_str v).
   Definition norm_attr (kv : seq * aval) : seq * aval := (fst kv, norm_val (fst kv) (snd kv)).
@@ -617,7 +729,7 @@ Section VarProofs.
   Proof.
     induction attrs as [|[k v] attrs IH]; [reflexivity|].
     cbn [info_body kv_texts map_res]. unfold kv_text at 1. cbn [fst snd]. unfold render_val.
-    destruct (if mem_seq k (pos_keys C) then z <- aval_int v;; Ok (print_int (z + 1)) else Ok (aval_str v)) as [vs|e];
+    destruct (if eval_kpred (w_shift C) k then z <- aval_int v;; Ok (print_int (z + 1)) else Ok (aval_str v)) as [vs|e];
       cbn [bind]; auto.
     rewrite IH. unfold kv_texts. destruct (map_res kv_text attrs); cbn [bind]; auto.
     cbn [map concat]. rewrite <- !app_assoc. cbn [app]. rewrite <- ?app_assoc. reflexivity.
@@ -639,7 +751,7 @@ Section VarProofs.
     render_val C k (norm_val k v) = render_val C k v.
   Proof.
     intros k v H. destruct (attr_ok_text k v H) as [vs [E _]].
-    unfold render_val, norm_val in *. destruct (mem_seq k (pos_keys C)).
+    unfold render_val, norm_val in *. destruct (eval_kpred (w_shift C) k).
     - destruct (aval_int v) as [z|e] eqn:Ez; cbn [bind] in *; try discriminate.
       cbn [aval_int]. rewrite parse_print. reflexivity.
     - reflexivity.
@@ -665,8 +777,8 @@ Section VarProofs.
     unfold parse_attr_field.
     rewrite split_on_app by (eapply no_chr_spec; eauto; simpl; auto 10).
     rewrite split_on_free by (eapply no_chr_spec; eauto; simpl; auto 10).
-    rewrite Hq. unfold render_val, norm_val in *.
-    destruct (mem_seq k (pos_keys C)).
+    rewrite Hq. unfold render_val, norm_val in *. rewrite <- Hpred.
+    destruct (eval_kpred (w_shift C) k).
     - destruct (aval_int v) as [z|e]; cbn [bind] in E; try discriminate. inversion E; subst vs.
       rewrite parse_print. cbn [bind]. replace (z + 1 - 1) with z by lia. reflexivity.
     - inversion E; subst. reflexivity.
@@ -806,7 +918,9 @@ Section VarRoundTrip.
     apply andb_true_iff in W as [W Wattrs]. apply andb_true_iff in W as [W Wne].
     apply andb_true_iff in W as [Wseq Wid].
     assert (Hne : v_attrs r <> []) by (destruct (v_attrs r); [discriminate | discriminate]).
-    destruct (parse_from C (v_attrs r) [] Wattrs Wnd ltac:(intros ? ? ? []))
+    assert (Hpred : forall k, eval_kpred (w_shift C) k = eval_kpred (r_shift C) k).
+    { apply kpred_equiv_sound. unfold cfg_ok in HC. rewrite !andb_true_iff in HC. tauto. }
+    destruct (parse_from C Hpred (v_attrs r) [] Wattrs Wnd ltac:(intros ? ? ? []))
       as [l [Hl [Hsh [Hlen Hp]]]]. cbn [app] in Hp.
     pose proof (info_spec C (v_attrs r) l Hne Hl Hsh Hlen) as Hinfo.
     assert (Hln : l <> []) by (destruct l; destruct (v_attrs r); simpl in *; congruence).
@@ -827,6 +941,7 @@ Section VarRoundTrip.
       - rewrite map_length; auto. }
     unfold cfg_ok in HC.
     apply andb_true_iff in HC as [HC' Hrows]. apply andb_true_iff in HC' as [HC' Hend].
+    apply andb_true_iff in HC' as [HC' Hequiv].
     apply andb_true_iff in HC' as [HC' Ha3]. apply andb_true_iff in HC' as [HC' Ha2].
     apply andb_true_iff in HC' as [HC' Ha1]. apply andb_true_iff in HC' as [HC' Hs3].
     apply andb_true_iff in HC' as [Hs1 Hs2]. apply negb_true_iff in Hend.
@@ -891,7 +1006,7 @@ Section VarRoundTrip.
         rewrite Eassoc.
         unfold norm_attr. rewrite (dict_get_map _ _ (norm_val C)). rewrite Eget.
         assert (Hev : aval_int (norm_val C s_END v) = Ok e).
-        { unfold norm_val. rewrite Hend. destruct v; cbn [aval_str aval_int] in *; auto.
+        { unfold norm_val. rewrite Hpred, Hend. destruct v; cbn [aval_str aval_int] in *; auto.
           - injection Ev as Ez. rewrite <- Ez. apply parse_print.
           - discriminate. }
         rewrite Hev. cbn [bind fst snd]. rewrite Z.add_simpl_r.
